@@ -76,6 +76,12 @@ func errCheckedAndReturned(ci *ssa.Call) (bool, string) {
 		}
 	}
 	checkIf(errV)
+	compared := false
+	for _, r := range referrers(errV) {
+		if bo, ok := r.(*ssa.BinOp); ok && isNilConst(bo.Y) {
+			compared = true
+		}
+	}
 	for _, r := range referrers(errV) {
 		if st, ok := r.(*ssa.Store); ok {
 			addr := resolveAddr(st.Addr)
@@ -85,9 +91,8 @@ func errCheckedAndReturned(ci *ssa.Call) (bool, string) {
 				}
 			}
 		}
-		// `return x, err` / `return err` directly
-		if ret, ok := r.(*ssa.Return); ok {
-			_ = ret
+		// `return x, err` / `return err` directly, with no nil test anywhere: propagated unconditionally
+		if _, ok := r.(*ssa.Return); ok && !compared {
 			good = true
 		}
 	}
@@ -252,6 +257,42 @@ func runC19(c *Ctx) {
 		}
 		c.check(keyOK, "store-key", instrPos(storeCall), "stored under key(GetKey())", "the reloaded entry is not stored under the dumped key")
 		c.check(unixGetter(a[3], "CacheExpirationTime"), "store-expiry", instrPos(storeCall), "stored with the dumped cache expiry", "the reloaded entry is not stored with the dumped cache expiry: "+exprStr(a[3]))
+		// every decoded entry reaches the store: within the entry loop the only conditions in front of the Store are
+		// the loop's own and "no decode error" (errors return); no entry is skipped silently
+		extra := ""
+		hdr := innermostLoopHeader(storeCall.Block())
+		if hdr == nil {
+			c.undecided("store-every-entry", instrPos(storeCall), "the store is not inside an entry loop")
+		}
+		for _, g := range guardsOfInstr(storeCall) {
+			if hdr == nil || !hdr.Dominates(g.If.Block()) {
+				continue // conditions in front of the loop (block header checks)
+			}
+			if cm, ok := g.asCmp(); ok {
+				if isNilConst(cm.Y) && cm.X.Type().String() == "error" && cm.Op == token.EQL {
+					continue
+				}
+				// range-over-slice loop: index < len
+				if cm.Op == token.LSS {
+					if _, isPhi := cm.X.(*ssa.Phi); isPhi {
+						continue
+					}
+					if bo, ok := cm.X.(*ssa.BinOp); ok && bo.Op == token.ADD {
+						continue
+					}
+				}
+			}
+			if v, _ := g.asBool(); v != nil {
+				if ex, ok := v.(*ssa.Extract); ok {
+					if _, isNext := ex.Tuple.(*ssa.Next); isNext {
+						continue
+					}
+				}
+			}
+			extra = guardText(g)
+		}
+		c.check(extra == "", "store-every-entry", instrPos(storeCall), "every decoded entry is handed to the store (expiry is judged there)",
+			"decoded entries are stored only under "+extra+": live entries of an intact dump are dropped on reload without an error")
 	}
 
 	// ---------------------------------------------------------------- R3
@@ -475,4 +516,31 @@ func runC19(c *Ctx) {
 		}
 	}
 
+}
+
+// innermostLoopHeader: the closest dominator of b that b can reach again (the header of the innermost loop around b).
+func innermostLoopHeader(b *ssa.BasicBlock) *ssa.BasicBlock {
+	reach := map[*ssa.BasicBlock]bool{}
+	var walk func(x *ssa.BasicBlock)
+	walk = func(x *ssa.BasicBlock) {
+		for _, s := range x.Succs {
+			if !reach[s] {
+				reach[s] = true
+				walk(s)
+			}
+		}
+	}
+	walk(b)
+	for d := b; d != nil; d = d.Idom() {
+		if !reach[d] {
+			continue
+		}
+		// a natural-loop header: the target of a back edge from a block of the loop
+		for _, pr := range d.Preds {
+			if d.Dominates(pr) && (pr == b || reach[pr]) {
+				return d
+			}
+		}
+	}
+	return nil
 }
